@@ -3,6 +3,7 @@ package rules
 import (
 	"fmt"
 	"go/types"
+	"strings"
 
 	"golang.org/x/tools/go/ssa"
 
@@ -32,6 +33,9 @@ type setEvent struct {
 	args []ssa.Value // call: the arguments, rooted
 	// call: for an argument that is the result of path.Join / filepath.Join, the joined elements, rooted
 	joins map[int][]ssa.Value
+	// alts[i]: when argument i is read from a field of an element of a slice the function collected in an
+	// earlier pass, the values stored into that field (a may-set)
+	alts map[int][]ssa.Value
 }
 
 func isSetMapType(t types.Type) bool {
@@ -161,21 +165,24 @@ func (vt *visitedTracer) trace(fn *ssa.Function, present bool) (paths [][]setEve
 		switch x := in.(type) {
 		case *ssa.Lookup:
 			if isSetMapType(x.X.Type()) {
-				return rec(setEvent{kind: "test", key: st.Root(x.Index), setP: an.FieldProv(st.Root(x.X)), site: in})
+				return rec(setEvent{kind: "test", key: st.Root(x.Index), setP: heldSetProv(st, x.X), site: in})
 			}
 		case *ssa.MapUpdate:
 			if isSetMapType(x.Map.Type()) {
-				return rec(setEvent{kind: "mark", key: st.Root(x.Key), setP: an.FieldProv(st.Root(x.Map)), site: in})
+				return rec(setEvent{kind: "mark", key: st.Root(x.Key), setP: heldSetProv(st, x.Map), site: in})
 			}
 		case ssa.CallInstruction:
 			if vt.seedURL >= 0 && an.ShortCallee(x.Common()) == "pkg/utils.IsURL" {
 				return rec(setEvent{kind: "url", key: st.Root(x.Common().Args[0]), site: in})
 			}
 			if vt.sites[in] {
-				ev := setEvent{kind: "call", site: in, joins: map[int][]ssa.Value{}}
+				ev := setEvent{kind: "call", site: in, joins: map[int][]ssa.Value{}, alts: map[int][]ssa.Value{}}
 				for i, a := range x.Common().Args {
 					r := st.Root(a)
 					ev.args = append(ev.args, r)
+					for _, alt := range an.CollectedFieldSources(r) {
+						ev.alts[i] = append(ev.alts[i], st.Root(alt))
+					}
 					if jc, ok := r.(*ssa.Call); ok && (an.ShortCallee(&jc.Call) == "path.Join" || an.ShortCallee(&jc.Call) == "path/filepath.Join") {
 						for _, el := range an.VariadicElems(jc.Call.Args[0]) {
 							ev.joins[i] = append(ev.joins[i], st.Root(el))
@@ -330,4 +337,28 @@ func (vt *visitedTracer) callerMarksBefore(fn *ssa.Function, site ssa.Instructio
 		}
 	}
 	return n > 0
+}
+
+// heldSetProv names the set m by the fields it is reached through. A set kept in a small object of its own (a
+// registry with mark/seen methods) is named from the holder of that object: inside the inlined method the map is
+// <receiver>.seen, and the receiver is what the caller passed — Loader.imports — so the name is
+// Loader.imports.seen.
+func heldSetProv(st *an.State, m ssa.Value) string {
+	own := an.FieldProv(st.Root(m))
+	ap := an.AccessPath(m)
+	if len(ap.Fields) == 0 {
+		return own
+	}
+	if _, isPrm := ap.Base.(*ssa.Parameter); !isPrm {
+		return own
+	}
+	for _, r := range st.RootChain(ap.Base) {
+		if r == ap.Base {
+			continue
+		}
+		if hp := an.FieldProv(r); strings.Contains(hp, ".") && !strings.Contains(hp, "(") {
+			return hp + "." + strings.Join(ap.Fields, ".")
+		}
+	}
+	return own
 }
